@@ -466,9 +466,9 @@ func genPlan(seed uint64, prop string) *Plan {
 	pClear := []float64{0, 0, 0.02, 0.1}[r.intn(4)]
 	order := r.intn(5) // 0 LIFO 1 FIFO 2 stalest 3 random index 4 mixed
 	for i := 0; i < 3*nParse+8; i++ {
-		var d uint8
+		var d int
 		x := r.float()
-		get := func() uint8 {
+		get := func() int {
 			o := order
 			if o == 4 {
 				o = r.intn(4)
@@ -479,7 +479,7 @@ func genPlan(seed uint64, prop string) *Plan {
 			case 2:
 				return rt_PdStalest
 			case 3:
-				return rt_PdIndex | uint8(r.intn(16))<<3
+				return rt_PdIndex | r.intn(16)<<3
 			}
 			return rt_PdLIFO
 		}
